@@ -55,6 +55,7 @@ class State:
         self.numeric_only = bool(spec.get("df_checks")) and any(
             c["kind"] != "custom" for c in spec["df_checks"])
         self.frame_dtype = spec.get("dtype")
+        self.level_dtype = {lv["name"]: lv["dtype"] for lv in spec.get("index") or []}
         self.counter = 0
 
     @property
@@ -288,15 +289,17 @@ def apply_data(step, st: State, new_schema):
                                           if c.get("bad") is not None), None)
     elif m == "set_index":
         D = D.set_index(list(step["keys"]), drop=step["drop"], append=step["append"])
-        if step["drop"]:
-            for k in step["keys"]:
+        for k in step["keys"]:
+            st.level_dtype[k] = st.cols[k]["dtype"]
+            if step["drop"]:
                 del st.cols[k]
     elif m == "reset_index":
         before = list(D.columns)
         D = D.reset_index(level=copy.deepcopy(step["level"]), drop=step["drop"])
         for lab in D.columns:
             if lab not in before:
-                st.cols[lab] = {"dtype": None, "regex": False, "required": True,
+                st.cols[lab] = {"dtype": st.level_dtype.get(lab), "regex": False,
+                                "required": True,
                                 "bad": None}
     st.frame = D
     st.schema = new_schema
